@@ -161,7 +161,7 @@ type runner struct {
 	repo string
 	mu   sync.Mutex
 
-	oofCache map[string]bool
+	attrCache map[string]string
 }
 
 // compare judges one pair (reference render, other render) of the same document.
@@ -190,8 +190,8 @@ func (rn *runner) compare(scen string, d Doc, ref, got Trace, detail string) boo
 	i, la, lb, op := firstDiff(a, b)
 	if key == "" {
 		key = "call:" + op
-		if rn.outOfFlowOnly(d) {
-			key = "out-of-flow-order"
+		if k := rn.attribute(d); k != "" {
+			key = k
 		}
 	}
 	rn.out.Add(res.Finding{Kind: "judge", Op: "judge:" + scen, Input: d.HTML, Impl: lb, Model: la,
@@ -201,34 +201,57 @@ func (rn *runner) compare(scen string, d Doc, ref, got Trace, detail string) boo
 }
 
 var oofRe = regexp.MustCompile(`float:\s*(left|right)|position:\s*absolute`)
+var gridRe = regexp.MustCompile(`display:\s*grid`)
 
-// outOfFlowOnly attributes an unstable document to KF15-2 (order of the out-of-flow boxes broken
-// across a page) by ablation: the document has at least two floats / absolutely positioned boxes
-// and the same document with all of them put back in flow renders identically 6 times.
-// Callers hold rn.mu.
-func (rn *runner) outOfFlowOnly(d Doc) bool {
-	if v, ok := rn.oofCache[d.HTML]; ok {
+func ablateOOF(html string) string {
+	return oofRe.ReplaceAllStringFunc(html, func(m string) string {
+		if strings.HasPrefix(m, "float") {
+			return "float:none"
+		}
+		return "position:static"
+	})
+}
+
+func ablateGrid(html string) string { return gridRe.ReplaceAllString(html, "display:block") }
+
+// stable: 6 renders of the document give the same trace (anchor order aside).
+func (rn *runner) stable(html string) bool {
+	first := renderTrace(html, nil, rn.repo)
+	ok := first.Crash == ""
+	for i := 0; ok && i < 5; i++ {
+		ok = renderTrace(html, nil, rn.repo).Canon == first.Canon
+	}
+	return ok
+}
+
+// attribute names the known order-dependence an unstable document falls under, by ablation:
+//
+//	"out-of-flow-order"  (KF15-2) at least two floats / absolutely positioned boxes, and the document with
+//	                     all of them put back in flow renders identically 6 times;
+//	"grid-item-order"    (KF15-3) a grid container, and the document with display:grid replaced by
+//	                     display:block renders identically 6 times;
+//	both joined by "+" when only removing both makes the document stable; "" when nothing does
+//	(the caller then keys the finding by the first differing call).  Callers hold rn.mu.
+func (rn *runner) attribute(d Doc) string {
+	if v, ok := rn.attrCache[d.HTML]; ok {
 		return v
 	}
-	v := false
-	if len(oofRe.FindAllStringIndex(d.HTML, 2)) >= 2 {
-		abl := oofRe.ReplaceAllStringFunc(d.HTML, func(m string) string {
-			if strings.HasPrefix(m, "float") {
-				return "float:none"
-			}
-			return "position:static"
-		})
-		first := renderTrace(abl, nil, rn.repo)
-		v = first.Crash == ""
-		for i := 0; v && i < 5; i++ {
-			v = renderTrace(abl, nil, rn.repo).Canon == first.Canon
-		}
-		rn.out.Hit("ablation:out-of-flow")
+	hasOOF := len(oofRe.FindAllStringIndex(d.HTML, 2)) >= 2
+	hasGrid := gridRe.MatchString(d.HTML)
+	v := ""
+	switch {
+	case hasOOF && rn.stable(ablateOOF(d.HTML)):
+		v = "out-of-flow-order"
+	case hasGrid && rn.stable(ablateGrid(d.HTML)):
+		v = "grid-item-order"
+	case hasOOF && hasGrid && rn.stable(ablateGrid(ablateOOF(d.HTML))):
+		v = "out-of-flow-order+grid-item-order"
 	}
-	if rn.oofCache == nil {
-		rn.oofCache = map[string]bool{}
+	rn.out.Hit("ablation:" + v)
+	if rn.attrCache == nil {
+		rn.attrCache = map[string]string{}
 	}
-	rn.oofCache[d.HTML] = v
+	rn.attrCache[d.HTML] = v
 	return v
 }
 
